@@ -258,4 +258,34 @@ example : (createIndexed [⟨"A_B_000".toList, .group, none, none, none⟩, ⟨"
     ⟨"A_001".toList, .dataset, none, none, none⟩] "A".toList).toOption.map (fun r => String.ofList r.2) = some "A_002" := by
   decide
 
+/-- **Parents do not see one another.**  For any history of requests addressed in turn to several parent groups of
+    one file, what happens in parent `p` - its final members and the outcome of every request addressed to it, in
+    order - is exactly what the sub-history addressed to `p` produces on `p` alone.  (This is what allows the
+    correspondence to run the model once per parent.) -/
+theorem parents_independent (p : Nat) : ∀ (h : List (Nat × Op)) (f : FileG), p < f.length →
+    (runFile f h).1.getD p [] = (runOps (f.getD p []) ((h.filter (fun x => x.1 = p)).map (·.2))).1 ∧
+    ((runFile f h).2.filter (fun x => x.1 = p)).map (·.2) =
+      (runOps (f.getD p []) ((h.filter (fun x => x.1 = p)).map (·.2))).2 ∧
+    (runFile f h).1.length = f.length
+  | [], f, _ => by simp [runFile, runOps]
+  | (q, op) :: h, f, hp => by
+    have hlen : (stepAt f q op).1.length = f.length := by simp [stepAt]
+    have ih := parents_independent p h (stepAt f q op).1 (by rw [hlen]; exact hp)
+    by_cases hq : q = p
+    · subst hq
+      have hget : (stepAt f q op).1.getD q [] = (stepOp (f.getD q []) op).1 := by
+        simp only [stepAt]
+        rw [List.getD_eq_getElem?_getD, List.getElem?_set_self hp]; rfl
+      simp only [runFile, List.filter_cons, decide_true, if_true, List.map_cons, runOps]
+      rw [hget] at ih
+      exact ⟨ih.1, by rw [ih.2.1]; rfl, by rw [ih.2.2, hlen]⟩
+    · have hget : (stepAt f q op).1.getD p [] = f.getD p [] := by
+        simp only [stepAt]
+        rw [List.getD_eq_getElem?_getD, List.getElem?_set_ne hq]
+        rfl
+      have hd : decide (q = p) = false := by simp [hq]
+      simp only [runFile, List.filter_cons, hd, Bool.false_eq_true, if_false]
+      rw [hget] at ih
+      exact ⟨ih.1, ih.2.1, by rw [ih.2.2, hlen]⟩
+
 end Usid.C13
